@@ -396,6 +396,63 @@ fn check_short_histories_large_m(m: usize, stats: &mut Stats) -> Outcome {
     Outcome::Ok
 }
 
+/// (g) an instance is a value: built on one thread and moved to another (a thread that never built a shuffler, or only a
+/// smaller one), it must behave as on its own thread - a draw history, reset, then m draws under the all-zero script give
+/// the fresh instance's order.  State kept per thread instead of per instance shows here.
+fn check_moved_across_threads(m: usize, stats: &mut Stats) -> Outcome {
+    let zero_words: Vec<u64> = vec![word_for_k(0); m];
+    let fresh = match guarded_mut(|| {
+        let mut fy = FYshuffle::new(m);
+        draw_n(&mut fy, &zero_words, m).out
+    }) {
+        Ok(v) => v,
+        Err(p) => return Outcome::Violation(format!("m={} fresh instance: panic {}", m, p)),
+    };
+    let histories: Vec<Vec<usize>> = vec![vec![], vec![m - 1], vec![m / 2, 0], (0..m.min(5)).map(|i| (m - 1 - i) / 2).collect()];
+    for h in histories {
+        for smaller_first in [false, true] {
+            let prew = words_for_choices(m, 0, &h);
+            let zw = zero_words.clone();
+            let hl = h.len();
+            let made_here = match guarded_mut(|| FYshuffle::new(m)) {
+                Ok(f) => f,
+                Err(p) => return Outcome::Violation(format!("m={}: new panics {}", m, p)),
+            };
+            let handle = std::thread::spawn(move || {
+                let mut fy = made_here;
+                if smaller_first && m >= 2 {
+                    let mut small = FYshuffle::new(m / 2);
+                    let w = vec![word_for_k(0); m / 2];
+                    let _ = draw_n(&mut small, &w, m / 2);
+                }
+                let _ = draw_n(&mut fy, &prew, hl);
+                fy.reset();
+                let d = draw_n(&mut fy, &zw, m);
+                (d.out, is_perm(fy.get_values()))
+            });
+            stats.history_runs += 1;
+            stats.draws += (hl + m) as u64;
+            match handle.join() {
+                Err(_) => return Outcome::Violation(format!("m={}: an instance moved to another thread panics on history {:?}, reset, {} draws", m, h, m)),
+                Ok((out, vperm)) => {
+                    if out != fresh || !vperm {
+                        return Outcome::Violation(format!(
+                            "m={}: an instance built on one thread and moved to {} gives, after the draw history {:?} and reset, the block {:?} instead of the fresh instance's {:?} (a permutation: {})",
+                            m,
+                            if smaller_first { "a thread that had only built a smaller shuffler" } else { "a thread that never built a shuffler" },
+                            h,
+                            &out[..out.len().min(12)],
+                            &fresh[..fresh.len().min(12)],
+                            is_perm(&out)
+                        ));
+                    }
+                }
+            }
+        }
+    }
+    Outcome::Ok
+}
+
 /// (f) long runs (a counter or cursor narrower than usize shows after 2^8 / 2^16 draws, blocks or resets, or from 2^16
 /// elements on): under a patterned script (choices 0, r-1, r/2, 1, ... cycling) every block of m draws without reset is a
 /// permutation; after `cycles` cycles of (a few draws, reset) m draws under the all-zero script equal a fresh instance's.
@@ -531,6 +588,12 @@ pub fn run(ctx: &Ctx) -> i32 {
             return c;
         }
     }
+    for &m in &[1usize, 2, 3, 5, 16, 100, 1000] {
+        let o = check_moved_across_threads(m, &mut st);
+        if let Err(c) = handle(ctx, o, format!("moved-across-threads:m={}", m), json!({"kind": "moved", "m": m})) {
+            return c;
+        }
+    }
     let blocks: Vec<(usize, usize)> = if ctx.quick() { vec![(1, 3), (2, 3), (3, 3), (4, 2), (5, 2)] } else { vec![(1, 4), (2, 4), (3, 3), (4, 3), (5, 2), (6, 2)] };
     for &(m, nb) in &blocks {
         let o = check_blocks(m, nb, &mut st);
@@ -617,6 +680,7 @@ pub fn replay(_ctx: &Ctx, case: &Value) -> Result<(bool, String), String> {
             check_boundaries(r, &boundary_cs(r), &mut st)
         }
         Some("history") => check_history(case["m"].as_u64().ok_or("m")? as usize, case["hmax"].as_u64().ok_or("hmax")? as usize, &mut st),
+        Some("moved") => check_moved_across_threads(case["m"].as_u64().ok_or("m")? as usize, &mut st),
         Some("short-history") => check_short_histories_large_m(case["m"].as_u64().ok_or("m")? as usize, &mut st),
         Some("long-run") => check_long_runs(case["m"].as_u64().ok_or("m")? as usize, case["draws"].as_u64().ok_or("draws")? as usize, case["cycles"].as_u64().ok_or("cycles")? as usize, &mut st),
         Some("blocks") => check_blocks(case["m"].as_u64().ok_or("m")? as usize, case["nblocks"].as_u64().ok_or("nblocks")? as usize, &mut st),
